@@ -181,6 +181,40 @@ def run_bodywrite(ctx, ncases):
             good.append((ub, ps, us, a[3:]))
     return good
 
+def run_ndbounds(ctx, count):
+    """`NumDecompressor::new`: the worst-case bit bounds per number block (max_bits_read / max_bits_overshot maximised
+    over the table) that decide when the unchecked path may run, and the GCD switch, value by value against the literal
+    model's `newDec` (whose `fast_guard_sound` is the theorem that these bounds are enough), on random and hostile tables:
+    counts of 0..2 or huge, ranges of exactly 2^k / 2^k +- 1 offsets, jumpstarts 0..24 on wide ranges, divisors."""
+    rng = ctx.rng
+    lines = []
+    for _ in range(count):
+        ub = rng.choice(UBS)
+        ps = random_table(rng, ub)
+        for p in ps:
+            if rng.chance(1, 3):
+                p[0] = rng.choice([0, 1, 2, (1 << 24) - 1, rng.below(1 << 24)])
+            if p[4] is None and rng.chance(1, 6):
+                p[4] = rng.choice([0, 1, 7, 24])
+            if rng.chance(1, 5) and p[2] > p[1]:
+                k = rng.below(ub)
+                size = (1 << k) + rng.choice([-1, 0, 1])
+                if size >= 1 and p[1] + size * p[5] < (1 << ub) and (p is ps[-1] or p[1] + size * p[5] < ps[ps.index(p) + 1][1]):
+                    p[2] = p[1] + size * p[5]
+        lines.append("ndbounds %d %d %s" % (ub, rng.choice([0, 1, 30, 5000, (1 << 24) - 1]), " ".join(ptok(p) for p in ps)))
+    imp = C.harness(lines, timeout=300)
+    mod = C.driver(lines, timeout=300)
+    for line, a, m in zip(lines, imp, mod):
+        ctx.case(line[:300], ["ndbounds"])
+        ctx.count("ndbounds:" + a.split(" ")[0].split(":")[0])
+        if a == "no-hooks" or a.startswith("bad"):
+            ctx.tie_break("hooks", "the harness was built without the num_decompressor_bounds_script hook (%s)" % a)
+            return
+        if m in ("timeout", "died") or a in ("timeout", "died"):
+            continue
+        if a != m:
+            ctx.disagree("ndbounds", line[:2000], m, a, "NumDecompressor::new's bit bounds differ from the literal model's (the bounds fast_guard_sound is about)")
+
 def numdec_line(ub, n, nproc, inc, limit, eoi, bit_idx, hexbytes, ps):
     return "numdec %d %d %d %s %d %d %d %s %s" % (ub, n, nproc, "-" if inc is None else "%d:%d" % inc, limit, 1 if eoi else 0, bit_idx,
                                                hexbytes or "-", " ".join(ptok(p) for p in ps))
